@@ -13,8 +13,10 @@ LEVEL_TEXT = ("The serving-phrase pattern is regenerated from markdown.py and th
               "first, level-1, markup-free heading yields a title; the heading decision (title, servings, kind) is compared exactly with "
               "compile_markdown on generated headings, using the heading text the renderer actually saw.")
 LEVEL_NOTE = ("Partial: which element is the first heading and how its text is rendered is marko's business (observed per case, not modelled); html.unescape "
-              "is modelled for the references marko emits. Trusted: Lean kernel, translator of the pattern (it rejects patterns outside its template).")
-LEAN_MODULES = ["RecipeGrid.Props.C18"]
+              "is modelled for the references marko emits. The heading rule is fully characterised (C18b): headingInfo_spec / headingInfo_none_iff (title and count iff the text "
+              "splits as title, white space, accepted phrase, white space, digits, optional white space at the left-most such split), uniqueness, invariance under "
+              "trailing white space and letter case, phrase_needs_preceding_space. Trusted: Lean kernel, translator of the pattern (it rejects patterns outside its template).")
+LEAN_MODULES = ["RecipeGrid.Props.C18", "RecipeGrid.Props.C18b"]
 SOURCES = ["recipe_grid/markdown.py", "docs/source/markdown_reference.rst"]
 RULE = ("headings from a word pool containing 'for', digits, punctuation, entities, markup, every documented phrase form in random case and spacing, ATX and "
         "setext, levels 1-3, first or preceded by other content / other headings; non-trivial = contains a serving phrase; distinct = distinct documents")
